@@ -268,6 +268,7 @@ def run(args):
     n = int((4000 if args.tier == "quick" else 150000) * args.scale)
     nl = 5
     cases = [(args.seed, i, nl) for i in range(n)]
+    cases = core.replay_cases(args, cases, lambda sd, i, *a: (sd, i, nl))
     B = 20
     batches = [cases[k:k + B] for k in range(0, len(cases), B)]
     hf = 0
